@@ -1163,6 +1163,27 @@ example : ptraceList [1] (rho (1 + [1].length) (STab.ofTab bell)) = mixGo 1 [1] 
   reduced_state_is_mixture_of_partial_trace_results [1] 1 bell rfl bell_valid bell_real
     (List.pairwise_singleton _ _) (by intro q hq; simp only [List.mem_singleton] at hq; subst hq; decide)
 
+/-- **the Bell pair, concretely**: `remove_qubit(bell, 1)` returns the pure state `|o⟩⟨o|` (`o` the drawn outcome), whereas
+    the reduced state of qubit 0 is the maximally mixed state `½·1` — their equal mixture -/
+theorem bell_reduced_state_is_maximally_mixed :
+    ptraceSite 1 (rho 2 (STab.ofTab bell)) = (1 / 2 : ℂ) • (1 : Matrix (Bits 1) (Bits 1) ℂ) ∧
+    ∀ o : Bool, ∃ t', bell.removeQubit 1 o = .ok t' ∧ rho 1 (STab.ofTab t') = proj 1 (Zq 0 o) := by
+  have key : ∀ o : Bool, ∃ t', bell.removeQubit 1 o = .ok t' ∧ rho 1 (STab.ofTab t') = proj 1 (Zq 0 o) := by
+    intro o
+    obtain ⟨t', h⟩ := remove_qubit_total bell 1 o (by decide) bell_valid
+    obtain ⟨n', v', r', _⟩ := removeQubit_grp bell t' 1 o (by decide) bell_valid bell_real h
+    have hz : Grp t' (Zq 0 o) := by
+      refine (remove_entangled_qubit_spec bell t' 1 2 o (by decide) bell_valid bell_real (by decide) h _).mpr (Or.inr ?_)
+      cases o
+      · exact InSpan.eqv _ _ (grp_gen bell 1 (by decide)) (eqOn_check 2 _ _ (by decide))
+      · exact InSpan.eqv _ _ (grp_gen bell 1 (by decide)) (eqOn_check 2 _ _ (by decide))
+    exact ⟨t', h, rho_one_qubit_Z t' n' v' r' o hz⟩
+  refine ⟨?_, key⟩
+  obtain ⟨t0, h0, e0⟩ := key false
+  obtain ⟨t1, h1, e1⟩ := key true
+  have mix := ptrace_remove_mix 1 bell t0 t1 1 rfl (by decide) bell_valid bell_real h0 h1
+  rw [mix, e0, e1, ← smul_add, proj_Zq_add]
+
 /-- `partial_trace` never hits an assertion on a valid tableau -/
 theorem partial_trace_total (t : Tab) (keep : List Nat) (os : List Bool) (hv : t.Valid) (hr : t.StabReal) :
     ∃ t', t.partialTrace keep os = .ok t' :=
